@@ -358,6 +358,7 @@ func runC27(c *Ctx) {
 
 func runC28(c *Ctx) {
 	u, r := c.U, c.R
+	runC28Extra(c)
 	bf := c.Fn("R-PARAM-NAMES", "buildWWWAuthenticate")
 	pq := c.Fn("R-PARAM-NAMES", "parseQuotedParam")
 	if bf == nil || pq == nil {
